@@ -228,6 +228,7 @@ func execC10(spec *RunSpec) *Result {
 		h = hashBytes([]byte(fmt.Sprint(h)), o.Out, []byte(o.Err), []byte(o.Panic))
 		if o.Panic != "" || o.Overrun {
 			res.addStat("c11_class_events", 1)
+			noteCrash(res, spec, i, op, o)
 		}
 		key := opKey(op)
 		ref, ok := refs[key]
